@@ -105,6 +105,16 @@ def _name_for(nc, j, ext, root, rng, canaries):
     raise ValueError(nc)
 
 
+def _case_ext(ext, rng):
+    """Letter case of the extension, drawn independently of everything else: lower / UPPER / Mixed."""
+    r = rng.random()
+    if r < 0.5:
+        return ext
+    if r < 0.75:
+        return ext.upper()
+    return ".".join(p[:1].upper() + p[1:] if i % 2 == 0 else p.upper() for i, p in enumerate(ext.split(".")))
+
+
 def concretise(members, root, rng, rich=False, limit=SMALL_LIMIT, tok0=1):
     """abstract members [{kind, nc}] -> concrete members + canary list."""
     out, canaries = [], []
@@ -121,9 +131,17 @@ def concretise(members, root, rng, rich=False, limit=SMALL_LIMIT, tok0=1):
         kind, nc = m["kind"], m["nc"]
         mine = []
         c = {"kind": kind, "nc": nc, "tar": None, "link": "", "toks": mine}
-        hostile = nc not in ("plain", "nested", "unicode", "dotslash")
+        hostile = nc not in ("plain", "nested", "unicode", "dotslash", "dup")
         ext = rng.choice(TEXT_FMTS if (hostile or not rich) else RICH_FMTS)
-        if kind == "doc":
+        dup = nc == "dup" and bool(out)         # a second / third entry under the name of the preceding one
+        if dup:
+            ext = out[-1]["ext"]
+        if dup and kind == "emptyFile":
+            c["data"] = b""
+        elif dup and kind == "oversize":
+            head = (" ".join(tok(i) for i in ids(2)) + "\n").encode()
+            c["data"] = head + b"a" * (limit + 1 - len(head))
+        elif kind == "doc":
             c["data"] = make_doc(ext, ids(rng.randint(1, 4)))
         elif kind == "emptyFile":
             ext = rng.choice(EMPTY_OK)
@@ -157,8 +175,11 @@ def concretise(members, root, rng, rich=False, limit=SMALL_LIMIT, tok0=1):
             c["tar"] = {"linkPrev": "hardlink", "symPrev": "symlink"}.get(kind, kind)
         else:
             raise ValueError(kind)
-        name = _name_for(nc, j, ext, root, rng, canaries)
-        if kind == "dir":
+        c["ext"] = ext
+        name = out[-1]["name"] if dup else _name_for("plain" if nc == "dup" else nc, j, _case_ext(ext, rng), root, rng, canaries)
+        if dup:
+            pass
+        elif kind == "dir":
             name = name.rsplit(".", 1)[0] if nc != "dotslash" else rng.choice([".", f"./d{j}", f"./d{j}/."])
         elif kind == "hidden":
             d, _, b = name.rpartition("/")
@@ -376,6 +397,7 @@ def build_7z(members, coder="lzma2", layout="solid", enc=False, corrupt=None, rn
             c7 = ("crc", sum(len(f) for f in folders[:fi]) + folders[fi].index(j))
     data, info = sz.write_7z(entries, folders, coders=coders, encode_header=enc, gap=rng.choice([0, 0, 3, 40]),
                              dict_size=sz.lzma2_dict(rng.randrange(13)),       # LZMA2 property bytes 0..12, odd ones too
+                             declared_dict=rng.choice([None, None, None, 1 << 20, 16 << 20, 64 << 20, 192 << 20]),
                              always_nums=rng.random() < 0.3, attrs=rng.random() < 0.7, mtime=rng.random() < 0.3,
                              corrupt=c7)
     if c7 is None or c7[0] == "crc":
@@ -544,10 +566,13 @@ def direct_results(basename: str, data: bytes):
 _TOK = __import__("re").compile(r"zq(\d{4})x")
 
 
-def run_history(read_archive, data, apath, hist, lookup, owner=None):
+def run_history(read_archive, data, apath, hist, lookup, owner=None, directs=None):
     """Execute the consumer history literally; append consumer events to STATE['ev']."""
     ev = STATE["ev"]
     owner = owner or {}
+    directs = directs or {}
+    seen = {}
+    tokened = set(owner.values())
     blank = {"m": 0, "fn": "", "path": "", "dg": 0, "canary": 0, "exc": "", "own": []}
 
     def project(r):
@@ -556,11 +581,26 @@ def run_history(read_archive, data, apath, hist, lookup, owner=None):
             md = r.get_metadata()
             fn, path = getattr(md, "filename", None) or "", getattr(md, "file_path", None) or ""
             text = json.dumps(r.to_json(), default=repr)
-            m = lookup.get(path, 0)
+            toks = {owner[int(x)] for x in _TOK.findall(text) if int(x) in owner}
+            cands = lookup.get(path, [])
+            used = seen.setdefault(path, set())
+            # several entries may bear this name: the result belongs to the entry whose direct extraction it
+            # equals, else to the entry whose token words it carries, else (damaged content) to the first unused
+            # entry that has content of its own, else in order
+            dg = digest_id(r)
+            m = 0
+            if len(cands) > 1:      # the entry whose direct extraction this result equals
+                m = next((j for j in cands if j not in used and dg in directs.get(j, ())), 0)
+            if cands and m == 0:
+                m = next((j for j in cands if j in toks), 0)
+            if cands and m == 0:
+                m = next((j for j in cands if j not in used and j in tokened), 0) \
+                    or next((j for j in cands if j not in used), cands[-1])
+            used.add(m)
             if m == 0:      # a result from INSIDE a member (e.g. a nested archive that was opened): that member
-                m = next((j for raw, j in lookup.items() if raw and path.startswith(raw + "!/")), 0)
-            own = sorted({owner[int(x)] for x in _TOK.findall(text) if int(x) in owner})
-            return {"m": m, "fn": fn[:400], "path": path[:700], "dg": digest_id(r),
+                m = next((js[0] for raw, js in lookup.items() if raw and path.startswith(raw + "!/")), 0)
+            own = sorted(toks)
+            return {"m": m, "fn": fn[:400], "path": path[:700], "dg": dg,
                     "canary": 1 if CANARY in text else 0, "exc": "", "own": own}
         finally:
             STATE["mute"] -= 1
@@ -682,14 +722,15 @@ def run_case(case, wroot, audit=True):
             lookup = {}
             for j, m in enumerate(ms, start=1):
                 raw = f"{apath}!/{m['name']}"
-                lookup.setdefault(raw, j)
-                lookup.setdefault(str(Path(raw)), j)
+                for key in {raw, str(Path(raw))}:
+                    lookup.setdefault(key, []).append(j)
             owner = {t: j for j, m in enumerate(ms, start=1) for t in m.get("toks", [])}
             before = snapshot(cpaths)
             STATE.update(ev=[], roots=[], outside=[], err="")
             STATE["on"] = audit
             try:
-                run_history(ae.read_archive, data, apath, case["hist"], lookup, owner)
+                run_history(ae.read_archive, data, apath, case["hist"], lookup, owner,
+                            {j: d for j, d in enumerate(directs, start=1)})
             finally:
                 STATE["on"] = False
             left = sorted(set(os.listdir(os.path.join(root, "tmp"))) - {os.path.basename(p) for p in cpaths
